@@ -43,12 +43,13 @@ def baseline_ok(out):
 
 def main():
     pid, which = sys.argv[1], sys.argv[2]
-    src = "/tmp/seed"
+    src = sys.argv[3] if len(sys.argv) > 3 else "/tmp/seed"
+    tag = sys.argv[4] if len(sys.argv) > 4 else ""
     d = os.path.join(src, pid, "OUT", which)
     meta = json.load(open(os.path.join(d, "meta.json")))
     demo_cmd = meta.get("demo_cmd", "")
     m = re.search(r"--test[ =](\S+)", demo_cmd)
-    test_name = m.group(1) if m else f"seed_demo_{pid.lower()}_{which.lower()}"
+    test_name = m.group(1) if m else (f"seed_demo_{pid.lower()}_{which.lower()}" if not tag else f"seed{tag}_{pid.lower()}_{which.lower()}")
     feats = ""
     if "--no-default-features" in demo_cmd:
         feats += " --no-default-features"
@@ -82,7 +83,7 @@ def main():
             and res.get("demo_with_patch_fails") and not res.get("baseline_missing_with_patch")
             and res.get("compiles_threadsafe") and res.get("compiles_content_blocking"))
     res["confirmed"] = bool(good)
-    sid = f"{pid}-{which.lower()}"
+    sid = f"{pid}-{tag}{which.lower()}"
     print(sid, json.dumps({k: v for k, v in res.items() if k != "demo_with_patch_tail"}))
     if good:
         out_dir = os.path.join("/verif/seeded", sid)
